@@ -437,6 +437,11 @@ class C15(Prop):
                    "1e-9 relative / 1e-12*(1+max|x|) absolute of the exact value (times |x|/deviation for standardised values)",
                    "NaN is the only non-finite input; several insert positions are given sorted (unsorted: not modelled)",
                    "statistics are not requested on a matrix with 0 taxa (numpy raises there)",
+                   "a trait with missing values: the MOMENTS on the original scale (tmean / tstd / tvar) are judged against "
+                   "the moments of the OBSERVED raw values only — the quantities the statement centres and scales by; NaN is "
+                   "accepted only for a trait without any value (theorems spec_mean_iff, spec_mean_rejects_nan, "
+                   "spec_std_var_nan_iff); for the extrema, the range and the arg-extrema the statement fixes no convention "
+                   "and both numpy conventions (NaN-propagating as the code does, or NaN-ignoring) are accepted",
                    "tmean(unscale=True) returns the object's location array itself (as the `location` attribute does); writing "
                    "into that array is treated like re-assigning `location`, not as a read-only history, and is not probed",
                    "kind state / the `self:` clauses: for a trait with a NaN location or scale only the unscaling formula "
@@ -532,6 +537,15 @@ class C15(Prop):
                    {"op": "insert", "k": 1, "kform": "int", "vals": {"as": "nd", "rows": [[5, 1]], "taxa": [5], "dtype": "int32"}},
                    {"op": "insert", "obj": {"kind": "list", "is": [0, 4], "np": True},
                     "vals": {"as": "nd", "rows": [["1/2", "-3/4"], ["nan", 8]], "taxa": [6, 7], "dtype": "float32"}}]),
+            # round 5: the MOMENTS of a trait with a missing record are those of the observed taxa (never NaN for the whole
+            # trait) — NaN in the raw matrix, brought in by insert_taxa (then a delete), by adjoin_taxa into a constant trait,
+            # a trait observed for one taxon only
+            h(ntrait=3, rows=[[1000, 2, 7], [1003, 4, 7], [1001, "nan", 7], [1008, 5, 7], [1002, 1, 7]], taxa=[0, 1, 2, 3, 4],
+              ops=[{"op": "insert", "k": 1, "kform": "int", "vals": {"as": "nd", "rows": [["nan", 6, 7]], "taxa": [5]}},
+                   {"op": "delete", "idx": [4]},
+                   {"op": "adjoin", "vals": {"as": "nd", "rows": [[1005, 3, "nan"], [1004, 2, 7]], "taxa": [6, 7]}}]),
+            h(ntrait=2, rows=[["nan", 3], [9, "nan"], ["nan", 5]], taxa=[0, 1, 2], cls="EBV", generic=True,
+              ops=[{"op": "select", "idx": [2, 1, 1, 0]}]),
             {"kind": "state", "cls": "GEBV", "generic": True, "axis": -2, "grp": True, "ntrait": 2, "via": "pandas",
              "rows": [["41/4", "3/8"], ["-7/2", 2], ["5/16", "9/2"], [6, "nan"]], "taxa": [0, 1, 2, 3],
              "edits": [{"e": "setscale", "scale": [2, 2], "scalar": True}, {"e": "setloc", "loc": ["-7/4", "-7/4"], "scalar": True},
@@ -2230,7 +2244,29 @@ class C15(Prop):
                     df[c] = df[c] * self._scale[j]
             return df
 
+        # -- round 5: a MOMENT on the original scale recomputed from the stored column with numpy's NaN-propagating
+        # reduction (the shape tmax / tmin have): right to rounding error for complete data, NaN for the whole trait as
+        # soon as one taxon has no record
+        def tmean_recomputed_nan_propagating(self, unscale=False):
+            out = self._mat.mean(axis=self.taxa_axis)
+            if unscale:
+                out *= self._scale
+                out += self._location
+            return out
+
+        def tstd_recomputed_nan_propagating(self, unscale=False):
+            out = self._mat.std(axis=self.taxa_axis)
+            return self._scale * out if unscale else out
+
+        def tvar_recomputed_nan_propagating(self, unscale=False):
+            out = self._mat.var(axis=self.taxa_axis)
+            return self._scale ** 2 * out if unscale else out
+
         return [
+            # round 5: moments of a trait with a missing value
+            ("tmean_recomputed_from_stored_column_nan_propagating", lambda: patch(BV, "tmean", tmean_recomputed_nan_propagating)),
+            ("tstd_recomputed_from_stored_column_nan_propagating", lambda: patch(BV, "tstd", tstd_recomputed_nan_propagating)),
+            ("tvar_recomputed_from_stored_column_nan_propagating", lambda: patch(BV, "tvar", tvar_recomputed_nan_propagating)),
             # round 4: D26 (fixed) in both copies of the mechanism, and near-miss versions of the guard
             ("from_numpy_without_constant_guard_D26", lambda: patch(BV, "from_numpy", from_numpy_factory(cguard=False))),
             ("rescale_without_constant_guard_D26", lambda: patch(SM, "rescale", rescale_prerepair)),
